@@ -338,6 +338,12 @@ func (e *UnaryOpExpr) Value(ctx *hcl.EvalContext) (cty.Value, hcl.Diagnostics) {
 		return cty.UnknownVal(e.Op.Type), diags
 	}
 
+	// As for binary operations, the operand's marks are re-applied to the
+	// result here rather than left to the function: an operation on an
+	// unknown value returns early inside the function call and would
+	// otherwise lose them.
+	val, valMarks := val.Unmark()
+
 	args := []cty.Value{val}
 	result, err := impl.Call(args)
 	if err != nil {
@@ -353,7 +359,7 @@ func (e *UnaryOpExpr) Value(ctx *hcl.EvalContext) (cty.Value, hcl.Diagnostics) {
 		return cty.UnknownVal(e.Op.Type), diags
 	}
 
-	return result, diags
+	return result.WithMarks(valMarks), diags
 }
 
 func (e *UnaryOpExpr) Range() hcl.Range {
